@@ -97,42 +97,54 @@ def setFlag (fs : FS) (name : Nat) (value : Bytes) : Option FS :=
 
 def valueFlags : List Nat := [97, 65, 67, 70, 83, 112, 119, 107]
 
+/-- what flag.FlagSet.parseOne makes of one token -/
+inductive Tok where
+  | nonflag                                   -- shorter than two bytes or no leading '-': stops the flag loop
+  | term                                      -- "--" terminates the flags
+  | bad                                       -- bad flag syntax, or a name that is not one letter (incl. -help)
+  | flag (n : Nat) (hasValue : Bool) (value : Bytes)   -- -n, -n=value, --n, --n=value
+deriving Repr, DecidableEq
+
+def classify (s : Bytes) : Tok :=
+  match s with
+  | 45 :: c :: tl =>
+    if c == 45 && tl.isEmpty then .term else
+    let name0 := if c == 45 then tl else c :: tl
+    match name0 with
+    | [] => .bad
+    | h :: _ =>
+      if h == 45 || h == 61 then .bad else            -- bad flag syntax
+      let r : Bytes × Bool × Bytes :=
+        match indexOf 61 (name0.drop 1) with
+        | some i => (name0.take (i + 1), true, name0.drop (i + 2))
+        | none => (name0, false, [])
+      match r.1 with
+      | [n] => .flag n r.2.1 r.2.2
+      | _ => .bad
+  | _ => .nonflag
+
 /-- flag.FlagSet.Parse: returns the flag set and the number of positional arguments left. -/
 def parseLoop : Nat → List Bytes → FS → Option (FS × Nat)
   | 0, _, _ => none
   | _, [], fs => some (fs, 0)
   | fuel + 1, s :: rest, fs =>
-    match s with
-    | 45 :: c :: tl =>
-      -- at least two bytes, starts with '-'
-      let (name0, isTerm) : Bytes × Bool :=
-        if c == 45 then (tl, tl.isEmpty) else (c :: tl, false)
-      if isTerm then some (fs, rest.length)          -- "--" terminates the flags
-      else
-        match name0 with
-        | [] => none
-        | h :: _ =>
-          if h == 45 || h == 61 then none else            -- bad flag syntax
-          let (name, hasValue, value) : Bytes × Bool × Bytes :=
-            match indexOf 61 (name0.drop 1) with
-            | some i => (name0.take (i + 1), true, name0.drop (i + 2))
-            | none => (name0, false, [])
-          match name with
-          | [n] =>
-            if n == 68 then                                -- -D, boolean
-              if hasValue then
-                match parseBool value with
-                | some b => parseLoop fuel rest { fs with deleteAll := b, visited := fs.visited ++ [68] }
-                | none => none
-              else parseLoop fuel rest { fs with deleteAll := true, visited := fs.visited ++ [68] }
-            else if valueFlags.contains n then
-              if hasValue then (setFlag fs n value).bind (parseLoop fuel rest)
-              else match rest with
-                | v :: rest' => (setFlag fs n v).bind (parseLoop fuel rest')
-                | [] => none                                -- flag needs an argument
-            else none                                      -- unknown flag (incl. -h)
-          | _ => none                                      -- unknown flag (incl. -help)
-    | _ => some (fs, (s :: rest).length)                   -- first non-flag argument stops parsing
+    match classify s with
+    | .nonflag => some (fs, (s :: rest).length)           -- first non-flag argument stops parsing
+    | .term => some (fs, rest.length)
+    | .bad => none
+    | .flag n hasValue value =>
+      if n == 68 then                                      -- -D, boolean
+        if hasValue then
+          match parseBool value with
+          | some b => parseLoop fuel rest { fs with deleteAll := b, visited := fs.visited ++ [68] }
+          | none => none
+        else parseLoop fuel rest { fs with deleteAll := true, visited := fs.visited ++ [68] }
+      else if valueFlags.contains n then
+        if hasValue then (setFlag fs n value).bind (parseLoop fuel rest)
+        else match rest with
+          | v :: rest' => (setFlag fs n v).bind (parseLoop fuel rest')
+          | [] => none                                      -- flag needs an argument
+      else none                                            -- unknown flag (incl. -h)
 
 /-- validate + building the rule. -/
 def finish (fs : FS) : Option Rule :=
